@@ -260,6 +260,7 @@ class EigshSeam(object):
     self.seed = 12345
     self.calls = 0
     self.forced = 0
+    self.eigh_forced = 0
     self.installed = False
     self.patched_lfda_name = False
 
@@ -271,18 +272,39 @@ class EigshSeam(object):
     if hasattr(ml_lfda, "eigsh"):
       ml_lfda.eigsh = self
       self.patched_lfda_name = True
+    # second link of LFDA's fallback chain: the dense symmetric solver.  Only
+    # calls made from metric_learn/lfda.py are ever failed; everybody else
+    # (scikit-learn, the oracles) gets the real scipy.linalg.eigh.
+    import scipy.linalg as _sl
+    self._sl = _sl
+    self.orig_eigh = _sl.eigh
+    seam = self
+
+    def eigh(*a, **k):
+      if seam.mode == "fail2":
+        try:
+          caller = sys._getframe(1).f_code.co_filename
+        except Exception:
+          caller = ""
+        if caller.replace("\\", "/").endswith("metric_learn/lfda.py"):
+          seam.eigh_forced += 1
+          raise np.linalg.LinAlgError("simulated: eigenvalue computation did not converge")
+      return seam.orig_eigh(*a, **k)
+    eigh.__wrapped__ = self.orig_eigh
+    _sl.eigh = eigh
     self.installed = True
 
   def uninstall(self):
     if self.installed:
       _spl.eigsh = self.orig
+      self._sl.eigh = self.orig_eigh
       if self.patched_lfda_name:
         ml_lfda.eigsh = self.orig
       self.installed = False
 
   def __call__(self, *a, **k):
     self.calls += 1
-    if self.mode == "fail":
+    if self.mode in ("fail", "fail2"):
       self.forced += 1
       raise _spl.ArpackNoConvergence(
           "ARPACK error -1: simulated: no convergence", None, None)
